@@ -35,7 +35,7 @@ package xy
 
 //@ func DistanceFromPointToLineString
 //@   floats real
-//@   lemmas mulCancel, mulCancel2, mulNonneg
+//@   lemmas mulCancel, mulCancel2, mulNonneg, mulMono
 //@   requires len(p) >= 2 && strideOf(layout) >= 2 && whole(len(line), strideOf(layout))
 //@   panics when len(line) < 2
 //@   ensures [nonneg] res >= 0.0
@@ -43,7 +43,7 @@ package xy
 //@   modifies nothing
 //@   loop 1:
 //@     ghost m int = 0 step m + 1
-//@     invariant m >= 0 && i == mul(m, stride) && stride == strideOf(layout) && (m == 0 || i < len(line))
+//@     invariant m >= 0 && i == mul(m, stride) && stride == strideOf(layout) && (m == 0 || i < len(line)) && mul(m + 1, stride) == i + stride && mul(m + 2, stride) == i + stride + stride && len(line) == mul(cnt(len(line), stride), stride)
 //@     invariant minDistance >= 0.0 && minDistance * minDistance == lsd2(p[0], p[1], cells(line), off(line), stride, m)
 //@   at loop1.end: assert m >= 1 && mul(m, stride) == mul(m-1, stride) + stride && i == mul(m, stride)
 //@   at loop1.end: assert lsd2(p[0], p[1], cells(line), off(line), stride, m) == fmin(lsd2(p[0], p[1], cells(line), off(line), stride, m-1), psd2(p[0], p[1], line[i-stride], line[i-stride+1], line[i], line[i+1]))
